@@ -6,7 +6,7 @@ the submitted ones (judged directly), and the encoder's output is checked agains
 urllib.parse (quote / unquote / parse_qsl) where the two are comparable."""
 import re, itertools
 from urllib.parse import quote, unquote, parse_qsl
-from vlib import common as C
+from vlib import common as C, gen_c17 as X
 
 DRIVERS = ['Query', 'Serve']   # model driver files this check runs: scopes translator failures to the tables they (and the proofs) import
 TRUSTED = ['Rust std as modelled: str::replace (Rws.replaceAll), str::split on an ASCII byte, str::trim / char::is_whitespace '
@@ -21,7 +21,10 @@ ASSUMPTIONS = ['protocol glue: hex fields; pairs as <key>:<value> lists; HashMap
                'printable = str.isprintable() (excludes controls, format characters, separators other than U+0020, unassigned)',
                'the three codec entry points are URL::parse_query, FormUrlEncoded::parse and Request::get_uri_query; the echo endpoints are '
                'driven through the server model and the real Server::process / process_request (echo_part): maps of 1..20 names including names '
-               'that differ only in case, accents or width']
+               'that differ only in case, accents or width',
+               'a request with an exact Content-Length, a Host header or a browser\'s usual header block is a request to the echo endpoint as much as the bare one; '
+               'a request whose bytes number at most the request allocation size is "within the request buffer"; the empty map is submitted as the empty query / body',
+               'get_uri_query is judged on origin-form targets <path>?<query> for plain paths (unreserved characters, dots, slashes, non-ASCII letters) besides /form-get-method']
 
 # the characters `encode_uri_component` escapes — written from the crate's documentation/test, not from the model
 ENCODED = set('% \r\n!"#$&\'()*+,/:;=@[]')
@@ -159,50 +162,130 @@ def echo_part(res, rng, pool, tier):
     """third entry point of the property: the form echo endpoints of the server (GET /form-get-method?<query> and POST
     /form-url-encoded-enctype-post-method with the encoded body).  The query / body is what a correct encoder with the crate's
     escape set prints (py_encode).  Oracle on the implementation alone: the answer is 200 and its lines are exactly
-    {`<name> is <value>`}; fields holding a literal %XY of a later-processed code are left to the codec part (F27)."""
-    from vlib import serve as S, servecheck as K
+    {`<name> is <value>`}; fields holding a literal %XY of a later-processed code are left to the codec part (F27).
+    `strict` cases are requests the statement speaks about (the endpoint's own method / path / media type, HTTP/1.1, CRLF, headers a
+    client sends, the whole request within the request buffer); the others (another version, LF line ends, another spelling of
+    the media type, a fragment, a static file of the endpoint's name) are judged only when the endpoint answers 200."""
+    from vlib import serve as S, servecheck as K, reqgen as G, vocab as V
     quick = tier == 'quick'
+    ALLOC = 10000
+    GETP, POSTP = '/form-get-method', '/form-url-encoded-enctype-post-method'
     tree = S.gen_tree(rng, small=True)
-    cases, maps = [], []
-    def add(m):
-        q = '&'.join(py_encode(k) + '=' + py_encode(v) for k, v in m.items())
-        if len(q.encode()) > 6000: return
-        cases.append(K.mk(tree, 'GET', '/form-get-method?' + q, [], entry=rng.choice(['proc', 'preq']), kind='echo-get')); maps.append(m)
-        cases.append(K.mk(tree, 'POST', '/form-url-encoded-enctype-post-method', [('Content-Type', 'application/x-www-form-urlencoded')], q.encode(),
-                          entry=rng.choice(['proc', 'preq']), kind='echo-post')); maps.append(m)
+    tree2 = S.gen_tree(rng.fork('namesake'), small=True)
+    for nm in (b'form-get-method', b'form-get-method.html', b'form-url-encoded-enctype-post-method', b'form-url-encoded-enctype-post-method.html'):
+        tree2.file(tree2.cwd + b'/' + nm, b'static file named like the endpoint is not a field\r\n')
+    batches = {id(tree): (tree, [], []), id(tree2): (tree2, [], [])}
+    ENT = ['proc', 'preq']
+    def enc(m): return '&'.join(py_encode(k) + '=' + py_encode(v) for k, v in m.items())
+    def put(c, m, cls, strict):
+        if len(c.raw) > ALLOC: return False          # "total size within the request buffer"
+        t, cs, ms = batches[id(c.tree)]
+        cs.append(c); ms.append((m, cls, strict)); return True
+    def get(m, entry, cls, strict=True, hs=(), version='HTTP/1.1', suffix='', t=None, eol=None):
+        target = GETP + '?' + enc(m) + suffix
+        raw = G.req('GET', target, version, hs, b'', eol=eol) if eol else None
+        return put(K.mk(t or tree, 'GET', target, list(hs), b'', version=version, entry=entry, kind='echo-get', raw=raw), m, cls, strict)
+    def post(m, entry, cls, strict=True, hs=None, version='HTTP/1.1', t=None, eol=None):
+        body = enc(m).encode()
+        hs = [X.CT] if hs is None else hs
+        raw = G.req('POST', POSTP, version, hs, body, eol=eol) if eol else None
+        return put(K.mk(t or tree, 'POST', POSTP, list(hs), body, version=version, entry=entry, kind='echo-post', raw=raw), m, cls, strict)
+    def both(m, cls):            # as before the audit: one GET and one POST, each through a random server entry point
+        if len(enc(m).encode()) > 6000: return
+        get(m, rng.choice(ENT), cls); post(m, rng.choice(ENT), cls)
+    def four(m, cls):            # every controller function: GET / POST x Server::process / process_request
+        for e in ENT: get(m, e, cls); post(m, e, cls)
     # names that differ only in letter case, in accents, in width, by a trailing character: distinct fields all the same
-    add({'Name': '1', 'name': '2', 'NAME': '3', 'other': '4'})
-    add({'a': 'x', 'A': 'y'}); add({'ß': '1', 'SS': '2', 'ss': '3'}); add({'é': '1', 'É': '2', 'e': '3'}); add({'k': '1', 'k ': '2', ' k': '3', 'K': '4'})
-    add({'ｋ': '1', 'k': '2'}); add({'i': '1', 'I': '2', 'ı': '3', 'İ': '4'}); add({'a&b': 'c=d', 'a': 'b&c', 'a=b': '', 'x': '?#/+ '})
+    for m in ({'Name': '1', 'name': '2', 'NAME': '3', 'other': '4'}, {'a': 'x', 'A': 'y'}, {'ß': '1', 'SS': '2', 'ss': '3'}, {'é': '1', 'É': '2', 'e': '3'},
+              {'k': '1', 'k ': '2', ' k': '3', 'K': '4'}, {'ｋ': '1', 'k': '2'}, {'i': '1', 'I': '2', 'ı': '3', 'İ': '4'},
+              {'a&b': 'c=d', 'a': 'b&c', 'a=b': '', 'x': '?#/+ '}):
+        four(m, 'related-names')
+    # audit classes: fold families, placeholders, the escape table as names, vocabulary, boundary scalars, histories (in order)
+    fam = [m for m in X.family_maps(rng.fork('families'), V.literals()['word']) if not any(has_later(k) or has_later(v) for k, v in m.items())]
+    for i, m in enumerate(fam):
+        if quick and i % 2: get(m, ENT[(i // 2) % 2], 'family'); post(m, ENT[(i // 2 + 1) % 2], 'family')
+        else: four(m, 'family')
+    # no field at all: the encoder prints the empty string
+    for e in ENT: get({}, e, 'no-field'); post({}, e, 'no-field')
+    # random maps; half of them keep their percent signs (no literal later-processed code: F27 is judged by the codec part);
+    # POST bodies come with the header blocks a client sends (exact Content-Length before / after the media type, a browser's set)
     for i in range(120 if quick else 4000):
         n = rng.choice([1, 1, 2, 3, 5, 8, 13, 20])
+        keep_percent = i % 2 == 1
+        fix = (lambda t: t) if keep_percent else (lambda t: t.replace('%', 'p'))
         m = {}
         for _ in range(n * 3):
             if len(m) >= n: break
-            k = gen_text(rng, pool, 12, True, False).replace('%', 'p')
+            k = fix(gen_text(rng, pool, 12, True, False))
             if m and rng.chance(1, 4):
                 base = rng.choice(list(m.keys()))
                 k = rng.choice([base.swapcase(), base.lower(), base.upper(), base.capitalize(), base + 'a', 'A' + base])
-            if not k or k in m: continue
-            m[k] = gen_text(rng, pool, 30, False, False).replace('%', 'p')
-        add(m)
-    results = K.run_batches([(tree, cases)], with_model=True)
-    for (c, r, il, ml), m in zip(results, maps):
+            if not k or k in m or has_later(k): continue
+            m[k] = fix(gen_text(rng, pool, 30, False, False))
+        cls = 'random' + (' with-percent' if keep_percent and any('%' in k or '%' in v for k, v in m.items()) else '')
+        if i % 3 == 0: both(m, cls)
+        else:
+            body = enc(m).encode()
+            if len(body) > 6000: continue
+            name, hs = rng.choice(X.post_header_shapes(body))
+            get(m, rng.choice(ENT), cls + (' browser-headers' if i % 3 == 1 else ''), hs=X.BROWSER if i % 3 == 1 else ())
+            post(m, rng.choice(ENT), cls + ' ' + name, hs=hs)
+    # literal texts of the early codes and percent shapes in both positions, through all four controller functions
+    for m in ({'%20': '%20', 'a%20b': 'c%0Ad', '%25': '%2525', '100%': '%', '%%': '%zz'}, {'%21%22': '%23%24', 'x': '%0D%0A', 'p%': '%p', '%é': 'é%20'},
+              {'%2': '%2', '%': '%25', '%2520': '%252520'}, {'rate': '5%', 'q': '100% sure', 'enc': 'a%20b c', 'pct': '%41%42', 'lower': '%2f%3a'}):
+        four(m, 'percent-literals')
+    # multi-byte bodies with an exact Content-Length (bytes, not characters), every header shape x both entry points
+    for m in ({'é': 'ü'}, {'naïve': 'café ☕', '日本': '語 テキスト', '\U0001F600': '\U0001F600 \U0001F44D'}, {'k': 'é' * 50}, {'€' * 20: '1', 'z': '€ & €'}, {'a': 'b'}):
+        body = enc(m).encode()
+        for name, hs in X.post_header_shapes(body):
+            for e in ENT: post(m, e, 'content-length ' + name, hs=hs)
+        for name, hs in X.post_variant_shapes(body): post(m, rng.choice(ENT), 'variant ' + name, strict=False, hs=hs)
+    # sizes: one long name / value / many middling values, and requests that fill the request buffer to the last byte(s)
+    for i, m in enumerate(X.sized_maps(quick)):
+        e = ENT[i % 2]
+        get(m, e, 'sized'); post(m, ENT[1 - i % 2], 'sized', hs=[X.CT, ('Content-Length', str(len(enc(m).encode())))])
+    for total in ((ALLOC - 1, ALLOC) if quick else (ALLOC - 3, ALLOC - 2, ALLOC - 1, ALLOC)):
+        for unit, ch, tail in ((1, 'x', ''), (2, 'é', ''), (1, 'x', ' '), (4, '\U0001F600', '%'), (3, '€', '')):
+            for meth in ('GET', 'POST'):
+                for key in ('k', 'kk', 'kkk', 'kkkk'):       # the name takes up the bytes the fill character cannot
+                    q0 = enc({key: tail})
+                    fixed = len(G.req('GET', GETP + '?' + q0, 'HTTP/1.1', [], b'')) if meth == 'GET' else len(G.req('POST', POSTP, 'HTTP/1.1', [X.CT], q0.encode()))
+                    n = X.fill_to(total, fixed, unit)
+                    if n is not None: break
+                m = {key: ch * n + tail}
+                e = rng.choice(ENT)
+                ok = get(m, e, f'fills-buffer {total}') if meth == 'GET' else post(m, e, f'fills-buffer {total}')
+    # shapes the statement does not speak about: judged only when the endpoint answers 200
+    vm = [{'a': '1', 'B b': 'c&d=e', 'é': '?x#y'}, {'k': 'v'}, fam[0], fam[5]]
+    for m in vm:
+        for v in ('HTTP/1.0', 'HTTP/2.0', 'HTTP/0.9', 'http/1.1'):
+            get(m, rng.choice(ENT), 'variant ' + v, strict=False, version=v); post(m, rng.choice(ENT), 'variant ' + v, strict=False, version=v)
+        for e in ENT:
+            get(m, e, 'variant LF', strict=False, eol=b'\n'); post(m, e, 'variant LF', strict=False, eol=b'\n')
+            get(m, e, 'variant namesake-file', strict=False, t=tree2); post(m, e, 'variant namesake-file', strict=False, t=tree2)
+        for f in X.FRAGMENTS: get(m, rng.choice(ENT), 'variant fragment', strict=False, suffix=f)
+    results = K.run_batches([(t, cs) for t, cs, ms in batches.values() if cs], with_model=True)
+    metas = [x for t, cs, ms in batches.values() if cs for x in ms]
+    for (c, r, il, ml), (m, cls, strict) in zip(results, metas):
         res.evaluations += 1; res.programs += 1
         res.distinct.add(hash((c.entry, c.raw)))
         if il != ml: res.disagree(c.line[:400], il[:300], (ml or '')[:300], 'form echo controllers')
         if r['head'].startswith(('panic', 'abort')):
             res.fail('echo-panic', c.line[:300], r['head'], None, 'C17: the echo endpoint panicked'); continue
         resp, why = K.parse_resp(r['writes'][0] if r['writes'] else b'')
-        res.count(c.kind + (' case-variant names' if len({k.lower() for k in m}) < len(m) else ''))
+        res.count(c.kind + ' ' + cls.split(' ')[0] + (' case-variant names' if len({k.lower() for k in m}) < len(m) else ''))
+        for w in cls.split(' ')[1:]: res.count('echo class ' + w)
+        if len(c.raw) >= ALLOC - 1: res.count(f'echo request of {len(c.raw)} bytes')
         if resp is None: continue      # framing: C05
+        if not strict and resp['status'] != 200: res.count('variant not answered by the endpoint'); continue
         want = sorted((k + ' is ' + v).encode() for k, v in m.items())
         got = sorted(x for x in resp['body'].split(b'\r\n') if x) if resp['status'] == 200 else None
         if got != want:
             miss = [w for w in want if got is None or w not in got]
-            res.fail('echo-roundtrip', c.line[:300], f'status {resp["status"]} body {resp["body"][:120]!r}', None,
-                     f'C17: {c.kind} did not return the submitted fields: missing or altered {miss[:3]} of {len(want)} fields')
-    return len(cases)
+            res.fail('echo-roundtrip', c.line[:300] if len(c.line) < 2000 else c.line[:120] + f'...({len(c.raw)} request bytes, class {cls})',
+                     f'status {resp["status"]} body {resp["body"][:120]!r}', None,
+                     f'C17: {c.kind} ({cls}, {c.entry}) did not return the submitted fields: missing or altered {[w[:60] for w in miss[:3]]} of {len(want)} fields')
+    return len(metas)
 
 def run(res, tier, seed):
     rng = C.Rng(seed)
@@ -247,6 +330,26 @@ def run(res, tier, seed):
         for val in ('', 'v', '=', '&', 'a=b&c=d', '%', '+', ' ', '?x=1#f', '/../', '%41', '%zz', 'é €😀'):
             m = {k: val for k in keys}
             add('maprt ' + pairs_field(m), 'map', m)
+    # ---- 2b. audit classes (vlib/gen_c17.py): systematic components, related names, placeholders, sizes, other targets
+    for s in X.component_texts(quick): add('qrt ' + T(s), 'qrt', s)
+    from vlib import vocab as V
+    fam = X.family_maps(rng.fork('families'), V.literals()['word'])
+    for m in fam + X.sized_maps(quick): add('maprt ' + pairs_field(m), 'map', m)
+    trng = rng.fork('targets')
+    tq_maps = fam[::3] + [gen_map(trng, pool, trng.range(1, 20)) for _ in range(60 if quick else 3000)]
+    for i, m in enumerate(tq_maps):
+        m = {k: v for k, v in m.items() if not has_later(k) and not has_later(v)}
+        if not m: continue
+        items = list(m.items()); trng.shuffle(items)
+        q = '&'.join(py_encode(k) + '=' + py_encode(v) for k, v in items)
+        path = X.SAFE_PATHS[i % len(X.SAFE_PATHS)]
+        add('requery ' + T(path + '?' + q), 'tq', (path, dict(items)))
+        if i % 4 == 0:     # shapes the statement does not speak about: compared with the model only
+            add('requery ' + T(trng.choice(X.ODD_PATHS) + '?' + q), 'url')
+            add('requery ' + T(path + '?' + q + trng.choice(X.FRAGMENTS)), 'url')
+    for s in ('\r', '\n', '\r\n', '\t', '\x00', 'a\rb', 'a\nb', 'a\r\nb', '%0D%0A', '\r%0A', '%0D\n', ' \r\n ', 'a=b\r\n&c=d', '\x7f', '\x1f', '\x85', '\u00a0', '\u200b', '\ufeff', '\u2028'):
+        for op in ('qrt ', 'qenc ', 'qdec ', 'qparse ', 'formparse '): add(op + T(s), 'raw')     # not printable: outside the quantifier
+        add('maprt ' + pairs_field({'k' + s: s + 'v', s: s}), 'raw')
     # ---- 3. raw decoder / parser inputs (model-vs-code only)
     raw_q = ['', ' ', '\t', '\u3000', ' \u00a0 ', 'a=b=c', 'a', '=b', '&&', 'a=b&&c=d', '&a=b', 'a=b&', '=', '==', 'a==b', 'a=&b=', 'a=1&a=2', 'a=1&a',
              '%61=1&a=2', ' a=b ', '\u3000a=b', 'a=b\u3000', '+=+', 'a+b=c+d', '%26=%3D', '%2526=%253D', '%3f=%3F', 'a=%', 'a=%2', 'a=%zz', '?a=b', 'a=b#c',
@@ -307,7 +410,17 @@ def run(res, tier, seed):
                 'a quarter of the names being case / accent / width variants of another name of the same map, against the server model and the oracle "the lines of the answer are exactly the fields"; raw inputs for parse_query/decode/FormUrlEncoded::parse '
                 '(all strings of length<=' + str(4 if quick else 6) + ' over {a,=,&,%,2}, white space of every kind, control bytes, invalid UTF-8); URL parsing on '
                 'hand-made weird targets, all strings of length<=' + str(3 if quick else 4) + ' over {/,?,#,:,@,],a,1} and random ones; non-trivial = non-empty '
-                'input; distinct = distinct lines')
+                'input; distinct = distinct lines; audit classes (vlib/gen_c17.py): every escaped character before / after / between 1-, 2-, 3- and 4-byte characters, '
+                'every ordered pair of escaped characters around wide characters, percent signs next to wide characters, literal texts of the codes decoded no later than %25, '
+                'all strings of length<=' + str(5 if quick else 8) + ' over {%,2,5} and <=' + str(4 if quick else 5) + ' over {%,2,0,A,1,D}, printable scalars at every edge of the UTF-8 encoding and of the '
+                'White_Space / control blocks and scalars holding the bytes 80 85 A0 AD BF, grapheme clusters, runs of 255..4096 (thorough ..65536) characters; maps: names equal under '
+                'case folding / NFC / NFKC / width, the 20 printable escaped characters as the 20 names, placeholders of template / printf / regex syntaxes and the echo separator " is " '
+                'as names and values, values equal to names / to other pairs, the source\'s own words as names, equal-length queries back to back, one long name / value (255..4096, '
+                'thorough 63..8193); get_uri_query on 15 other origin-form paths x maps (judged), odd paths and fragments (compared only); echo endpoints additionally: all of the above '
+                'families through GET / POST x process / process_request, fields keeping their percent signs (no literal later-processed code), no field at all, POST with an exact '
+                'Content-Length before / after the media type and inside a browser\'s header block (multi-byte bodies), GET with a browser\'s headers, requests of exactly '
+                'alloc-1 / alloc bytes (1- to 4-byte fill, an escape at the very end), and - judged only when the endpoint answers 200 - other HTTP versions, LF line ends, other '
+                'spellings of the media type / header names, fragments, a static file named like the endpoint')
     res.exhaustive = 'encode->decode for all printable-ASCII strings of length 0..2 (9121) and all %XY over [0-9A-Fa-f] (484)'
     ni = [norm_line(l, a) for l, a in zip(lines, impl)]
     nm = [norm_line(l, b) for l, b in zip(lines, model)]
@@ -364,6 +477,14 @@ def run(res, tier, seed):
                         continue
                 res.fail('roundtrip:' + entry, ln[:300], (f[idx] if len(f[idx]) < 200 else f[idx][:200]), None,
                          f'{entry} entry point returned {str(got)[:120]} for submitted {str(want)[:120]}')
+        elif kind == 'tq':
+            path, m = pl
+            res.count('target-query path=' + (path if len(path) < 40 else path[:8] + '...'))
+            want = sorted(m.items(), key=lambda kv: kv[0].encode())
+            got = parse_pairs(a[3:]) if a.startswith('ok ') and a != 'ok ~' else None
+            if got != want:
+                res.fail('roundtrip:target-path', ln[:300], a[:200], None,
+                         f'get_uri_query on {path[:40]}?<encoded query> returned {str(got)[:120]} for submitted {str(want)[:120]}')
         else:
             res.count(kind + ' ' + ln.split(' ', 1)[0])
     echo_part(res, rng.fork('echo'), pool, tier)
